@@ -45,17 +45,17 @@ CLAIMS["C19"] = dict(
 
 CLAIMS["C02"] = dict(
     category="proof",
-    text="Both move-application entry points are under contract against the rule-prescribed successor s_apply for every placement satisfying the occupancy invariant and every move obeying the movement rules (a superset of the legal moves): placement, side, rights, en-passant band (upper and lower bound, the latter with the flood-fill legality spec), hash per key coordinate, monotone material — all with a SYMBOLIC opponent king; the check/pin clause per fixed opponent-king square (4 squares x 2 entry points per quick run — central and home squares plus one seed-rotated; all 128 x 2 in the thorough tier). make_move is checked for any prior content of the output board; both entry points are tied to the same spec and additionally compared on the en-passant field.",
+    text="Both move-application entry points are under contract against the rule-prescribed successor s_apply for every placement satisfying the occupancy invariant and every move obeying the movement rules (a superset of the legal moves): placement, side, rights, en-passant band (upper and lower bound, the latter with the flood-fill legality spec), hash per key coordinate, monotone material — all with a SYMBOLIC opponent king. The check/pin clause holds for EVERY opponent-king square by decomposition: Kani O2.1c/O2.2c (symbolic king, recording EMPTY-ray stand-ins) prove that the statements before the slider scan anchor the scan on the opponent king, leave pinned empty and set checkers to exactly the direct knight/pawn checks; Verus O2.1t/O2.2t prove on the extracted text (loop invariant, any number of sliders) that the scan XORs in exactly the pointwise slider contributions, flips the side and changes nothing else; lemma S1.6 equates the pointwise rule with the eight ray walks. Independently, Kani proves the whole clause end-to-end on the unextracted code per fixed opponent-king square (4 squares x 2 entry points per quick run; all 128 x 2 in the thorough tier). make_move is checked for any prior content of the output board; both entry points are tied to the same spec and additionally compared on the en-passant field.",
     design_ref="DESIGN.md §6 C02",
-    note=TRUST + "quick tier: placement/hash/ep obligations replace get_rook_rays/get_bishop_rays by EMPTY (frame assumption: the slider scan writes only checkers/pinned; the thorough tier discharges it with a havoc abstraction of the rays); table accessors replaced by closed forms that C16 obligations prove equal to them (run as part of this check); the check/pin clause covers a subset of king squares in the quick tier.",
-    technique="Kani/CBMC contracts on Board::make_move_new / make_move against an independent successor spec; hash checked coordinate-wise through a probe stand-in for the key table; per-king-square case split for the slider scan loop",
+    note=TRUST + "quick tier: placement/hash/ep obligations replace get_rook_rays/get_bishop_rays by EMPTY (frame assumption: the slider scan writes only checkers/pinned; the thorough tier discharges it with a havoc abstraction of the rays); table accessors replaced by closed forms that C16 obligations prove equal to them (run as part of this check); the Verus tail proofs outline the statements before the scan (their text is kept but not verified in that unit; their effect is the contract of O2.1a/h/e/c); the end-to-end per-king Kani form of the check/pin clause covers a subset of king squares in the quick tier.",
+    technique="Kani/CBMC contracts on Board::make_move_new / make_move against an independent successor spec (symbolic king); hash checked coordinate-wise through a probe stand-in for the key table; Verus loop-invariant proof of the slider scan on the mechanically extracted text for every king square, plus a per-king-square Kani case split end-to-end",
 )
 CLAIMS["C03"] = dict(
     category="proof",
-    text="update_pin_info is proved for EVERY king square at once: Verus proves on the extracted text (loop invariant, any number of candidate sliders) that it computes the pointwise rule 'slider is a checker iff nothing stands between, the single man between is pinned' plus knight and pawn checkers and changes nothing else, and the code-independent Kani lemma S1.6 proves that this pointwise rule equals the independent eight-ray-walk specification of checkers and (raw) pinned for every placement and king square; Kani additionally proves update_pin_info == eight-walk spec on the unextracted code with the real closed-form tables per fixed king square (4 per quick run, all 128 in thorough); the incremental computation at the tail of make_move/make_move_new is proved equal to the same spec on the result position (C02 obligations O2.1b/O2.2b, included here); xor keeps pieces/colour/combined in lock-step and toggles exactly one key; piece_on/color_on/king_square and every accessor agree with the bitboards; derived == compares exactly the position-determined fields, so a position reached incrementally equals the one built from scratch.",
+    text="update_pin_info is proved for EVERY king square at once: Verus proves on the extracted text (loop invariant, any number of candidate sliders) that it computes the pointwise rule 'slider is a checker iff nothing stands between, the single man between is pinned' plus knight and pawn checkers and changes nothing else, and the code-independent Kani lemma S1.6 proves that this pointwise rule equals the independent eight-ray-walk specification of checkers and (raw) pinned for every placement and king square; Kani additionally proves update_pin_info == eight-walk spec on the unextracted code with the real closed-form tables per fixed king square (4 per quick run, all 128 in thorough); the incremental computation at the tail of make_move/make_move_new is proved equal to the same spec on the result position — for every king square by Kani O2.1c (pre-scan part, symbolic king) + Verus O2.1t/O2.2t (scan loop) + S1.6, and end-to-end per fixed king square by Kani O2.1b/O2.2b (all included here); xor keeps pieces/colour/combined in lock-step and toggles exactly one key; piece_on/color_on/king_square and every accessor agree with the bitboards; derived == compares exactly the position-determined fields, so a position reached incrementally equals the one built from scratch.",
     design_ref="DESIGN.md §6 C03",
     note=TRUST + "table accessors replaced by closed forms proved equal to them (C16 obligations, run as part of this check); quick tier covers a subset of king squares for the loop obligations; the FEN text layer of the statement is C06.",
-    technique="Kani/CBMC contracts on Board::update_pin_info, xor, piece_on, color_on and the make_move tails against an eight-ray-walk spec; per-king-square case split with loop unwinding assertions",
+    technique="Verus loop-invariant proofs of Board::update_pin_info and of the make_move/make_move_new slider scans on the mechanically extracted text (every king square), tied by a code-independent Kani lemma to an eight-ray-walk spec; Kani/CBMC contracts on xor, piece_on, color_on, accessors, and per-king-square end-to-end proofs with loop unwinding assertions",
 )
 
 CLAIMS["C14"] = dict(
